@@ -195,3 +195,18 @@ def c16_trim_set(tier="quick", seed=0):
             bad = (cp, g, want)
     return [ob("C16.trim-set", bad is None, "K4", f"{len(cps)} code points x 3 methods" if bad is None else f"U+{bad[0]:04X}: flags {bad[1]}, expected {bad[2]} (1 trim, 2 trimStart, 4 trimEnd strip it; 8 left alone)",
                witness=(f"(String.fromCharCode({bad[0]}) + 'x' + String.fromCharCode({bad[0]})).trim()" if bad else None), confirmed=True if bad else None, domain=len(cps) * 3)]
+
+
+@groups.group(id="C16.bounded.index-keys", prop="C16", kind="B", functions=["microjs.vm:VM._get_property", "microjs.values:_is_array_index"])
+def c16_index_keys(tier="quick", seed=0):
+    """the index accessors of a string: only canonical index strings (and numbers whose ToString is one) address characters;
+    "01", " 1", "+1", "1.0", non-ASCII digits ... are ordinary (absent) property names (the string rows of the grid of C17)"""
+    from contracts.C17_arrays import c17_index_keys
+    out = []
+    for o in c17_index_keys(tier, seed):
+        if o["id"].endswith(".string"):
+            o = dict(o)
+            o["id"] = o["id"].replace("C17.", "C16.", 1)
+            o["finding_key"] = o["id"]
+            out.append(o)
+    return out
